@@ -91,7 +91,9 @@ def _(fn):
 
 @affine_inputs.register(Reduce)
 def _(fn):
-    return affine_inputs(fn.arg) - fn.reduced_vars
+    if fn.op is not ops.add:
+        return frozenset()  # only summation is linear
+    return affine_inputs(fn.arg) - frozenset(v.name for v in fn.reduced_vars)
 
 
 @affine_inputs.register(Finitary[ops.EinsumOp, tuple])
